@@ -53,6 +53,8 @@ PROPS = {
             "NOT proved: termination of read_uint on an endless run of 0 bits (it ends by EOF error on a finite file)",
             "the writer's round trip is stated for values written wholly inside the current bounded block (or outside any block); a write that crosses the end of a bounded block "
             "is specified only by write_bit's clause (1s accepted and dropped, 0 raises ValueError) and the common frame",
+            "record_bitstream_start / record_bitstream_finish (validator side): the recording holds the bytes read since its start, with the not yet read bits of the "
+            "current byte zeroed in the last recorded byte (ground lemma band_clear_low), earlier bytes untouched",
             "'both readers agree on every bit string': the validator's read_* and BitstreamReader.read_* are each proved equal to the SAME spec functions of tape and position "
             "(tbit, bitsval, ue_val/ue_end, and vbit/bitsvalb/ueb_val/ueb_end inside bounded blocks)",
         ],
@@ -80,7 +82,9 @@ PROPS = {
             "(key present, local bound, divisor non-zero, index in range, assert, callee precondition)",
             "second sentence (explain / offending_offset / bitstream_viewer_hint never fail): covered only by raise-site preconditions for the exceptions whose "
             "explain() constrains its arguments (ParseCodeNotAllowedInProfile, ParseCodeNotSupportedByVersion, ProfileNotSupportedByVersion, MissingNextParseOffset, "
-            "and the 'level recorded first' typestate for ValueNotAllowedInLevel); the string formatting itself is NOT verified",
+            "the six Preset*NotSupportedByVersion classes - their index must be a member of the preset enumeration / table, i.e. must have passed the 'defined preset' "
+            "check first - and the 'level recorded first' typestate for ValueNotAllowedInLevel); the string formatting itself is NOT verified (bounded/c02_explain.py "
+            "evaluates explain(), offending_offset() and the viewer hint on the exceptions the corpus streams raise)",
             "picture_decode, clip/offset, idwt_pad_removal and inverse_wavelet_transform are verified (see C09); TRUSTED below them: idwt (returns a fresh array of the padded "
             "size, does not raise), delete_rows_after/delete_columns_after (slice deletion), the output callback (does not raise, does not touch the state)",
             "TRUSTED: Matcher (model M1/M2/M4), OrderedDict, allowed_values_for / ValueSet membership (C17, C18 bounded)",
